@@ -481,6 +481,30 @@ func connStateGuarded(c *Ctx, g groot) (bool, string) {
 		if ndyn == 0 || bad != "" {
 			return false, "the function installed on http.Server.ConnState calls the hook outside a deferred recover (" + bad + ")"
 		}
+		// what the recovering function does to the connection it does only when it recovered something
+		closesAlways := ""
+		eachInstr(F, func(i ssa.Instruction) {
+			d, ok := i.(*ssa.Defer)
+			if !ok {
+				return
+			}
+			D := staticCallee(&d.Call)
+			if D == nil || D.Blocks == nil {
+				return
+			}
+			eachInstr(D, func(j ssa.Instruction) {
+				if isCall(j, "(net.Conn).Close") {
+					rec := false
+					rec = relHolds(c.guardStrs(j.Block()), "builtin.recover()", "!=", "nil")
+					if !rec {
+						closesAlways = c.Pos(instrPos(j)) + " guards " + strings.Join(c.guardStrs(j.Block()), ",")
+					}
+				}
+			})
+		})
+		if closesAlways != "" {
+			return false, "the ConnState wrapper closes the connection although the hook did not panic (" + closesAlways + ")"
+		}
 		// the installing function must run before the goroutine starts
 		W := a.Fn
 		before := false
